@@ -165,6 +165,11 @@ def base(name):
     return name[2:] if name.startswith("I_") else name
 
 
+def plain_numbers(args):
+    """Python integers beyond 64 bits (numpy's ufuncs refuse them) as floats: the gate matrices are functions of real numbers."""
+    return [float(a) if (isinstance(a, int) and not isinstance(a, bool) and abs(a) >= 2 ** 62) else a for a in args]
+
+
 def unitary(name, classical, variant="A"):
     """Independent evaluation of a gate matrix; None for idle / unitary-less gates."""
     if name.startswith("I_") or name in ("prepare_all", "measure_all"):
@@ -175,4 +180,4 @@ def unitary(name, classical, variant="A"):
     fn = VARIANTS[variant.rstrip("ds")][name][1]
     if fn is None:
         return None
-    return np.asarray(fn(*classical), dtype=complex)
+    return np.asarray(fn(*plain_numbers(classical)), dtype=complex)
